@@ -245,6 +245,10 @@ var oddEnv = []string{"NOEQUALS", "=X", "A=B=C", "", "=", "==", "PORT", "HOST", 
 
 func genEnvp(r *coqfmt.Rng) [][]byte {
 	var out [][]byte
+	if r.Chance(1, 4) { // a map-valued variable with an escape at or beyond the validity boundaries
+		q := `"a` + coqfmt.Pick(r, textgen.BoundaryEscapes) + `"`
+		out = append(out, []byte("B="+coqfmt.Pick(r, []string{q + `:"v"`, `"k":` + q, q + ":" + q})))
+	}
 	n := r.Intn(6)
 	for i := 0; i < n; i++ {
 		out = append(out, []byte(coqfmt.Pick(r, ordinaryEnv)))
@@ -280,6 +284,9 @@ func extraCorpus(add func(in input)) {
 	add(input{K: "envp", Cfg: 0, Env: [][]byte{[]byte("x")}})
 	add(input{K: "envp", Cfg: 1, Env: [][]byte{[]byte("\xff\xfe"), []byte(strings.Repeat("L", 100000)), []byte("PORT=8080")}})
 	add(input{K: "envp", Cfg: 2, Env: [][]byte{[]byte("NOEQUALS=v"), []byte("X=maybe"), []byte("B=k:v")}})
+	for _, e := range textgen.BoundaryEscapes {
+		add(input{K: "envp", Cfg: 2, Env: [][]byte{[]byte(`B="a` + e + `":"v","k":"b` + e + `"`)}})
+	}
 }
 
 // ---- compared cases on arbitrary byte strings (UTF-8 front end of the models) ----
